@@ -609,6 +609,20 @@ pub async fn run_walk(seed: u64, nodes: usize, nkeys: i64, steps: usize, with_re
                 if sim.net[m].abs["a"].as_u64() == Some(i as u64 + 1) {
                     continue; // a node does not ingest its own changes (handle_changes filters them)
                 }
+                {
+                    // a partial chunk without any change is only ever sent to a node that already buffered
+                    // another part of that version (it is the answer to a partial need)
+                    let ab = &sim.net[m].abs;
+                    let hole_only = ab["k"] == "full" && ab["chs"].as_array().map(|c| c.is_empty()).unwrap_or(false) && !(ab["lo"].as_u64() == Some(0) && ab["hi"] == ab["last"]);
+                    if hole_only {
+                        let a = sim.ids[ab["a"].as_u64().unwrap() as usize - 1];
+                        let conn = sim.nodes[i].agent.pool().read().await?;
+                        let has: bool = conn.query_row("SELECT EXISTS(SELECT 1 FROM __corro_buffered_changes WHERE site_id = ? AND db_version = ?)", rusqlite::params![a, ab["v"].as_u64().unwrap() as i64], |r| r.get(0))?;
+                        if !has {
+                            continue;
+                        }
+                    }
+                }
                 batch.push(m + 1);
             }
             if batch.is_empty() {
